@@ -28,6 +28,9 @@ FORBIDDEN = re.compile(r"\b(Admitted|admit|Axiom|Axioms|Parameter|Parameters|Con
                        r"Unset Guard Checking|bypass_check|Admit Obligations)\b|type-in-type|impredicative-set")
 
 
+# properties whose theorems rest on the core inherent methods (all but the type-level C15)
+CORE_PROPS = {"C%02d" % i for i in range(1, 21)} - {"C15"}
+
 EXPLAIN = {
     "C17": "Partial by nature: (1) theorems: no operation changes the capacity and the specification emits an allocation event only for "
            "to_vec; (2) what decides the property: under a counting global allocator every returning call of the case space must perform "
@@ -340,6 +343,29 @@ def main():
     except Exception as ex:            # the fingerprint tool itself failed: the tie is not established
         fp = {"ok": False, "error": str(ex), "changed": [], "new_items": [], "removed": [], "message": "source fingerprint failed: %s" % ex}
     fp_ok = bool(fp.get("ok"))
+    # the core inherent methods are regenerated from the source and proved equal to the hand-written model
+    # (tools/rs2coq_core, coq/gen/CoreGenProofs.v): for them the model IS what the source says now
+    import coregen
+    try:
+        cg = coregen.run()
+    except Exception as ex:
+        cg = {"ok": False, "translated": [], "proved": [], "failed": {}, "skipped": {}, "problems": ["core translator failed: %s" % ex]}
+    proved = set(cg.get("proved", []))
+
+    def core_name(item):          # srcfp item name -> translated function name
+        return item.split("::")[-1] if item.startswith("CircularBuffer::") else item
+    if not fp_ok and not fp.get("error"):
+        still = [n for n in fp.get("changed", []) if not (core_name(n) in proved and (n.startswith("CircularBuffer::") or "::" not in n))]
+        if not still and not fp.get("removed") and not [n for n in fp.get("new_items", []) if n not in fp.get("changed", [])]:
+            # every function whose text changed is one whose regenerated model is PROVED equal to the hand model:
+            # a harmless rewrite, the theorems are still about this code
+            fp_ok = True
+            fp["harmless_rewrite_of"] = fp.get("changed")
+    cg_relevant = [f for f in (cg.get("failed") or {}) if pid in CORE_PROPS]
+    if (cg_relevant or (cg.get("problems") and pid in CORE_PROPS)) and fp_ok:
+        fp_ok = False
+        fp.setdefault("changed", [])
+        fp["message"] = "regenerated model differs from the hand model: %s %s" % (sorted(cg.get("failed") or {}), cg.get("problems"))
     # extraction is validated, not only trusted: the same Gallina computations (inputs enumerated by a Gallina
     # function, all 72 operations) evaluated by vm_compute in the kernel and by the extracted OCaml program
     import xcheck
@@ -441,7 +467,8 @@ def main():
                                "(steered to the capacities listed) found no failing input",
                     "changed": fp.get("changed"), "new_items": fp.get("new_items"), "removed": fp.get("removed"),
                     "new_literals": fp.get("new_literals"), "new_features": fp.get("new_features"),
-                    "steered_capacities": steer, "message": fp.get("message"), "error": fp.get("error")}
+                    "steered_capacities": steer, "message": fp.get("message"), "error": fp.get("error"),
+                    "regenerated_model": {"not_equal_to_hand_model": cg.get("failed"), "problems": cg.get("problems")}}
             for r in results:
                 if r.get("cfail"):
                     c, k, why = r["cfail"][0]
@@ -454,9 +481,9 @@ def main():
     ev = {
         "property_id": pid, "tier": tier, "seed": seed, "level": getattr(plan, "level", "proof"),
         "coverage": {
-            "obligations": len(pinfo["theorems"]) + len(results) + len(extras) + 2,
+            "obligations": len(pinfo["theorems"]) + len(results) + len(extras) + 2 + len(cg.get("translated", [])),
             "discharged": (len(pinfo["theorems"]) if proofs_ok else 0) + sum(1 for e in extras if e[1]) + (1 if fp_ok else 0) +
-                          (1 if xr.get("ok") else 0) +
+                          (1 if xr.get("ok") else 0) + len(proved) +
                           sum(1 for r in results if "build_failed" not in r and not r["ofail"] and not r["cfail"]),
             "explanation": EXPLAIN.get(pid, "machine-checked theorems about the Gallina model (coq/Properties/%s.v) plus the checked "
                                             "correspondence between the extracted model and /repo's working tree" % pid),
@@ -464,7 +491,9 @@ def main():
             "translated_arithmetic": getattr(plan, "arith", None), "miri": getattr(plan, "miri", None), "api_surface": getattr(plan, "api", None),
             "extraction_crosscheck": {k: xr.get(k) for k in ("ok", "cases", "mismatch_count", "constructors_covered",
                                                               "constructors_total", "numbers_compared", "wall_s")},
-            "source_fingerprint": {"ok": fp_ok, "functions_in_scope": fp.get("functions_in_scope"),
+            "regenerated_core_model": {"ok": cg.get("ok"), "functions_translated_and_proved_equal": sorted(proved),
+                                       "skipped": cg.get("skipped"), "failed": cg.get("failed")},
+            "source_fingerprint": {"ok": fp_ok, "harmless_rewrite_of": fp.get("harmless_rewrite_of"), "functions_in_scope": fp.get("functions_in_scope"),
                                    "functions_total": fp.get("functions_total"), "changed": fp.get("changed"),
                                    "new_items": fp.get("new_items")},
             "checker_cmd": "make -C /verif/coq (coqc 8.16.1, full .vo build) && coqc Properties/%s.v with Print Assumptions; then ./check %s %s" % (pid, pid, tier),
